@@ -14,6 +14,24 @@ pub fn validate_attributes(attributable: &(impl Attributable + AsAttributables),
     }
 }
 
+/// Validates the attributes on a reference to a specific kind of element: a base of an interface, or the underlying type
+/// of an enum. These aren't visited as ordinary type references, and can't be wrapped in [Attributables] as they are,
+/// so we validate their attributes through an untyped copy of the reference (attributes never look at its definition).
+pub fn validate_attributes_on_typed_ref<T: Element + ?Sized>(type_ref: &TypeRef<T>, diagnostics: &mut Diagnostics) {
+    let identifier = Identifier {
+        value: String::new(),
+        span: type_ref.span.clone(),
+    };
+    let untyped_ref: TypeRef = TypeRef {
+        definition: TypeRefDefinition::Unpatched(identifier),
+        is_optional: type_ref.is_optional,
+        scope: type_ref.scope.clone(),
+        attributes: type_ref.attributes.clone(),
+        span: type_ref.span.clone(),
+    };
+    validate_attributes(&untyped_ref, diagnostics);
+}
+
 /// Validates a list of attributes to ensure attributes which are not allowed to be repeated are not repeated.
 pub fn validate_repeated_attributes(attributes: &[&Attribute], diagnostics: &mut Diagnostics) {
     let mut first_attribute_occurrence = HashMap::new();
